@@ -103,6 +103,14 @@ META.update({
          "All failing assemblies of fault-injected programs and all failing link steps; span(), iter(), first() under catch_unwind.",
          "Link errors about blocks carry an empty list; only absence of panics is judged there.", "5 (C26)"),
 })
+ 
+META["C25"] = ("TLC: MC_SourceInfo (the operators of spec/SourceInfo.tla satisfy C25 in its own words for all short strings) + TLC table validation of the real SourceInfo queries (exhaustive on short strings, random longer ones)",
+         "count_lines, line_span, read_line and get_pos_pair of the real SourceInfo are recorded for every string of up to 4 symbols over an 8-symbol alphabet of line ends and whitespace (thorough: 6 symbols over 6) and for random longer strings, for every line and every index up to length+10, and each answer is compared by TLC with CountLines / LineSpan / ReadLine / PosPair; MC_SourceInfo proves those operators meet the property as stated, exhaustively on strings of up to 5/6 symbols.",
+         "Whitespace = Unicode White_Space on UTF-8 bytes.", "5 (C25)")
+
+META["C19"] = ("TLC trace validation of reader/serialize/link/load outcomes on arbitrary and adversarially structured object files: no Panic record, outcomes conform to the total operator Linker!Link on abstract (possibly malformed) objects (TV_Asm)",
+         "Random inputs, mutated valid serializations and abstract objects that break the writers' invariants (written by the harness's own writers of both formats) are fed to the real readers; every accepted object is projected, re-serialized, read back, loaded, stepped, queried and linked with assembled partners in both orders and with itself, all under catch_unwind. The specification has no action for a panic; link outcomes are compared with Linker!Link, which is total on arbitrary abstract objects.",
+         "The byte/text grammars are not transcribed; which inputs are accepted is not predicted. Harness profile has overflow checks on.", "5 (C19)")
 
 def main():
     props = [json.loads(l) for l in open(os.path.join(ROOT, "properties.jsonl"))]
